@@ -4,6 +4,7 @@ import (
 	"context"
 	"encoding/binary"
 	"errors"
+	"fmt"
 	"math/rand"
 	"net"
 	"strings"
@@ -436,6 +437,12 @@ func runQuery(tr *sim.Trace, seg int, seed int64, sc qscript) qstatus {
 	}
 	// free run: the script no longer applies (or is over); let everything through until the call returns
 	for r.hang == "" && !r.returned {
+		if r.nD > 4*(cfg.N+2) {
+			// every try is followed by one delay, the last one by the time-out: a sender that keeps coming back for
+			// more will never let the query return
+			r.hang = fmt.Sprintf("the sender asked for its resend delay %d times although NumTries is %d: the query neither times out nor fails", r.nD, cfg.N)
+			break
+		}
 		if r.parked != nil {
 			if r.parked.kind == "W" {
 				r.release("wok")
